@@ -626,10 +626,16 @@ func sortedAfterLoop(P *Program, fn *ssa.Function, l *Loop, app *ssa.Call) bool 
 // verification call tree both reads and (itself or through its callees) writes is a memo; every such read must
 // follow a write of the same invocation.
 func noCrossCallStateRule(P *Program, R *Report) {
-	rule := "C02.h"
-	proofTypes := map[string]bool{"gabi.ProofD": true, "gabi.ProofU": true, "revocation.Proof": true, "rangeproof.Proof": true}
+	noCrossCallStateRuleFor(P, R, "C02.h", map[string]bool{"gabi.ProofD": true, "gabi.ProofU": true, "revocation.Proof": true, "rangeproof.Proof": true},
+		[]string{kListVerify, kProofDVerify, kProofUVerify}, 3, nil)
+}
+
+// noCrossCallStateRuleFor: no field of the given object types that the call tree of the entries writes is read there
+// before it was written in the same invocation (a value kept from an earlier call - a memo keyed on less than all
+// its inputs - would make this call depend on that one). allowed: fields that are state by design.
+func noCrossCallStateRuleFor(P *Program, R *Report, rule string, proofTypes map[string]bool, entryKeys []string, minWritten int, allowed map[string]string) {
 	var entries []*ssa.Function
-	for _, k := range []string{kListVerify, kProofDVerify, kProofUVerify} {
+	for _, k := range entryKeys {
 		if f := mustFunc(P, R, rule, k); f != nil {
 			entries = append(entries, f)
 		}
@@ -664,7 +670,7 @@ func noCrossCallStateRule(P *Program, R *Report) {
 			}
 		})
 	}
-	R.decide(rule, "written-fields:count", "proof fields written during verification were found (>= 3: range-proof m-response, expected Nu/challenge of the non-revocation proof, ...)", len(nWritten) >= 3, strings.Join(sortedKeys(nWritten), ", "), "")
+	R.decide(rule, "written-fields:count", fmt.Sprintf("object fields written in this call tree were found (>= %d)", minWritten), len(nWritten) >= minWritten, strings.Join(sortedKeys(nWritten), ", "), "")
 	// ... and through callees (bounded depth)
 	var storedBy func(fn *ssa.Function, depth int, seen map[*ssa.Function]bool) map[string]bool
 	storedBy = func(fn *ssa.Function, depth int, seen map[*ssa.Function]bool) map[string]bool {
@@ -710,6 +716,9 @@ func noCrossCallStateRule(P *Program, R *Report) {
 			byField[s.d] = append(byField[s.d], s)
 		}
 		for _, d := range sortedKeys(boolSetAgg(byField)) {
+			if allowed[d] != "" {
+				continue
+			}
 			nMemo++
 			R.seen(FuncKey(fn))
 			ok := true
@@ -729,7 +738,7 @@ func noCrossCallStateRule(P *Program, R *Report) {
 			R.decide(rule, FuncKey(fn)+":memo("+d+")", "a proof field that this function (or its callees) writes is read only after it was written in the same invocation", ok, strings.Join(why, "\n"), P.Pos(byField[d][0].ld.Pos()))
 		}
 	}
-	R.decide(rule, "memo-candidates:count", "functions that read and write the same proof field were examined (>= 1)", nMemo >= 1, fmt.Sprintf("%d", nMemo), "")
+	R.decide(rule, "memo-candidates:count", "functions that read and write the same object field were examined (>= 1)", nMemo >= 1 || minWritten == 0, fmt.Sprintf("%d", nMemo), "")
 }
 
 func boolSet(m map[string]string) map[string]bool {
